@@ -759,8 +759,12 @@ func (env *specEnv) evalCall(t *ast.CallExpr) Value {
 			x := env.eval(t.Args[0])
 			return boolV(Eq(x.C[0], IntC(0)))
 		case "fresh":
-			// fresh(p): p was allocated after function entry
+			// fresh(p): p was allocated after function entry (and, as every object, before the state it is
+			// evaluated in - which bounds references that are only reached through a quantifier)
 			x := env.eval(t.Args[0])
+			if env.st != nil && env.st.alloc != nil {
+				return boolV(And(ILe(env.ex.root().entry.alloc, x.C[0]), ILt(x.C[0], env.st.alloc)))
+			}
 			return boolV(ILe(env.ex.root().entry.alloc, x.C[0]))
 		case "unwrap":
 			// unwrap(x, T): the value of dynamic type T stored in interface value x (pointer-shaped T only)
@@ -770,6 +774,23 @@ func (env *specEnv) evalCall(t *ast.CallExpr) Value {
 				env.fail("unwrap expects a pointer-shaped type")
 			}
 			return Value{T: ty, C: []*Term{x.C[1]}}
+		case "cmpS":
+			// cmpS(a, b): sign of the lexicographic comparison of two byte strings.  The order is a countable total
+			// order, so it embeds into the reals: strings are ranked by an uninterpreted injective strrank into Real
+			// and compared there, which makes totality, antisymmetry and transitivity arithmetic facts.
+			if len(t.Args) == 2 {
+				a, b := env.eval(t.Args[0]), env.eval(t.Args[1])
+				if len(a.C) == 1 && len(b.C) == 1 && a.C[0].sort.K == SInt && b.C[0].sort.K == SInt {
+					ra, rb := App("strrank", RealSort, a.C[0]), App("strrank", RealSort, b.C[0])
+					res := Ite(ILt(ra, rb), BVI(-1, 64), Ite(ILt(rb, ra), BVI(1, 64), BVI(0, 64)))
+					if !a.C[0].bound && !b.C[0].bound {
+						AddFact(ra, Implies(Eq(ra, rb), Eq(a.C[0], b.C[0])))
+						AddFact(rb, Implies(Eq(ra, rb), Eq(a.C[0], b.C[0])))
+					}
+					return Value{T: intT, C: []*Term{res}}
+				}
+			}
+			env.fail("cmpS takes two strings")
 		case "typeis":
 			// typeis(x, T): dynamic type of interface value x is T
 			x := env.eval(t.Args[0])
